@@ -2605,8 +2605,12 @@ def small_scope(o, scopes=(2, 3), timeout_ms=8000):
         s = z3.Solver()
         s.set("timeout", timeout_ms)
         s.add(ex)
-        for c in consts.values():
-            s.add(c >= -1, c <= S + 1)
+        for nm, c in consts.items():
+            if "__d" in nm:
+                # extents of flat (pointer) arrays are products of the size parameters
+                s.add(c >= -1, c <= (S + 1) * (S + 1))
+            else:
+                s.add(c >= -1, c <= S + 1)
         r = s.check()
         rounds = 0
         while r == z3.sat and dropped and rounds < 6:
@@ -2649,10 +2653,30 @@ def small_scope(o, scopes=(2, 3), timeout_ms=8000):
             r = s.check()
         if r == z3.sat and rounds >= 6:
             r = z3.unknown
+        enum_note = ""
+        if r == z3.unknown and not dropped and _t.time() - t0 < 40:
+            # nonlinear arithmetic in the size parameters: enumerate the named integer parameters (no '!' in the name:
+            # not a loop / havoc symbol) over the scope and solve each instance (sizes become constants)
+            named = [c for nm, c in sorted(consts.items()) if "!" not in nm and "__" not in nm][:3]
+            if named:
+                for tup in itertools.product(range(0, S + 2), repeat=len(named)):
+                    if _t.time() - t0 > 40:
+                        break
+                    s2 = z3.Solver()
+                    s2.set("timeout", 1500)
+                    s2.add(z3.simplify(z3.substitute(ex, *[(c, z3.IntVal(v)) for c, v in zip(named, tup)])))
+                    for nm, c in consts.items():
+                        s2.add(c >= -1, c <= ((S + 1) * (S + 1) if "__d" in nm else S + 1))
+                    for c, v in zip(named, tup):
+                        s2.add(c == v)
+                    if s2.check() == z3.sat:
+                        s, r = s2, z3.sat
+                        enum_note = "; size parameters " + ", ".join(f"{c}={v}" for c, v in zip(named, tup)) + " by enumeration"
+                        break
         if r == z3.sat:
             m = s.model()
             o.status = "refuted"
-            o.backend = f"z3-{z3.get_version_string()} finite scope {S}"
+            o.backend = f"z3-{z3.get_version_string()} finite scope {S}" + enum_note
             o.model = {str(d): str(m[d]) for d in m.decls()
                        if m[d] is not None and not z3.is_as_array(m[d]) and len(str(m[d])) < 120}
             o.time += _t.time() - t0
